@@ -1,5 +1,6 @@
 import RtenVerif.Lemmas.PlanCache
 import RtenVerif.Lemmas.PlanCacheExec
+import RtenVerif.Lemmas.PlannerComplete
 /-!
 # C26 — Invalid run requests are reported as errors
 
@@ -298,6 +299,35 @@ theorem c26_accepted_plan_ok {m : Mdl} {c : Option CachedPlan} (hc : Reachable m
   getCachedPlan_ok (reachable_inv hc) h
 
 
+/-! ## "Missing required input", syntactically
+
+`Invalid.missing` is semantic (no valid plan exists).  On graphs with unique producers the two
+concrete shapes of a missing input fall under it: a requested output, or an input (or capture) of
+an operator on the path to a requested output, that is neither supplied nor a constant nor
+produced by any operator. -/
+
+/-- An operator needed for the requested outputs reads `d`, which is not supplied, not a constant
+and has no producer: the request is `Invalid` (class "missing required input"). -/
+theorem invalid_of_unproduced_dependency {m : Mdl} {inputs : List (Nat × InVal)} {outs : List Nat}
+    (hu : UniqueProducer m.g) {x d : Nat} {xop : OpNode}
+    (hx : Needed m.g (resolvedNew m.g (inputs.map (·.1)) false) outs x)
+    (hop : getOp m.g x = some xop) (hd : d ∈ opDeps m.g xop)
+    (hr : rContains m.g (resolvedNew m.g (inputs.map (·.1)) false) d = false)
+    (hs : getSource m.g d = none) : Invalid m inputs outs := by
+  apply Invalid.missing
+  rintro ⟨Q, hQ⟩
+  exact no_errCause_of_planOK (opts := cacheOpts false) hu hQ
+    (ErrCause.missing rfl hx hop hd hr hs)
+
+/-- A requested output that is not supplied, not a constant and has no producer. -/
+theorem invalid_of_unproduced_output {m : Mdl} {inputs : List (Nat × InVal)} {outs : List Nat}
+    (hu : UniqueProducer m.g) {o : Nat} (ho : o ∈ outs)
+    (hr : rContains m.g (resolvedNew m.g (inputs.map (·.1)) false) o = false)
+    (hs : getSource m.g o = none) : Invalid m inputs outs := by
+  apply Invalid.missing
+  rintro ⟨Q, hQ⟩
+  exact no_errCause_of_planOK (opts := cacheOpts false) hu hQ (ErrCause.noSource rfl ho hr hs)
+
 /-! ## Outcome level: every request returns `Ok` or `Err` -/
 
 /-- **C26, outcome level (`run`, `run_n`, `run_one`).** On a graph whose operator inputs are value
@@ -394,6 +424,14 @@ example : Invalid wMdl [(0, wv5), (1, wv)] [2] :=
     (Or.inr ⟨rfl, [none, some 4], rfl, Or.inr ⟨1, 4, 5, by decide, by decide, by decide⟩⟩)
 example : Invalid wMdl [(0, wv), (1, wv)] [3] := Invalid.badOutput 3 (by decide) (by decide)
 example : Invalid wMdl [(0, wv), (1, wv)] [77] := Invalid.badOutput 77 (by decide) (by decide)
+
+/-- `[a] → [y]` lacks `b`: operator 3 is needed, reads `b`, nobody produces `b`. -/
+example : Invalid wMdl [(0, wv)] [2] :=
+  invalid_of_unproduced_dependency (x := 3) (d := 1)
+    (xop := { inputs := [some 0, some 1], outputs := [some 2] })
+    (uniqueProducerB_sound (by decide))
+    (Needed.root (o := 2) (pop := { inputs := [some 0, some 1], outputs := [some 2] })
+      (by decide) (by decide) (by decide)) (by decide) (by decide) (by decide) (by decide)
 
 /-- The code as it stands, warm cache: errors. -/
 example : (run .fixed wMdl true (cacheAfter .fixed wMdl true [⟨[(0, wv), (1, wv)], [2]⟩] none)
